@@ -3,6 +3,7 @@ from __future__ import annotations
 from classify_checks import *
 import props.c01_names as N
 import props.c01_star as S
+import props.c01_typeb as B
 
 PID = "C01"
 COMP_THEOREMS = ["PauLie.C01Comp." + t for t in [
@@ -11,8 +12,8 @@ COMP_THEOREMS = ["PauLie.C01Comp." + t for t in [
     "C01_componentwise_full", "C01_componentwise_typeA_full"]] + ["PauLie.C01Star." + t for t in [
     "C01_typeA_full", "C01_from_C02_typeA_full", "TypeA.inv_clo", "TypeAL.inv_clo"]] + [
     "PauLie.C19.invOfClosure_soFib", "PauLie.C19.invOfClosure_of_blocks", "PauLie.C03.invOfClosure_perm_closed"]
-THEOREMS = CLOSURE_THEOREMS + ["PauLie.Tie.census_tie"] + N.EXTRA_THEOREMS + S.EXTRA_THEOREMS + COMP_THEOREMS
-IMPORTS = CLOSURE_IMPORTS + ["PauLieVerif.Proofs.TieCensus"] + N.EXTRA_IMPORTS + S.EXTRA_IMPORTS + ["PauLieVerif.Properties.C01Comp", "PauLieVerif.Properties.C01CompFull", "PauLieVerif.Properties.C01StarFull"]
+THEOREMS = CLOSURE_THEOREMS + ["PauLie.Tie.census_tie"] + N.EXTRA_THEOREMS + S.EXTRA_THEOREMS + COMP_THEOREMS + B.EXTRA_THEOREMS
+IMPORTS = CLOSURE_IMPORTS + ["PauLieVerif.Proofs.TieCensus"] + N.EXTRA_IMPORTS + S.EXTRA_IMPORTS + ["PauLieVerif.Properties.C01Comp", "PauLieVerif.Properties.C01CompFull", "PauLieVerif.Properties.C01StarFull"] + B.EXTRA_IMPORTS
 
 def batch_oracle(lines, outs):
     colls = [inputs_of(l) for l in lines]
@@ -61,7 +62,7 @@ def build_streams(rng, tier):
         Stream("structured+random", lines, h, **kw),
         history_stream("C01", rng, tier),
         assembled_stream(lines[:600 if tier == "thorough" else 150], **kw),
-    ] + N.extra_streams(rng, tier) + S.extra_streams(rng, tier)
+    ] + N.extra_streams(rng, tier) + S.extra_streams(rng, tier) + B.extra_streams(rng, tier)
 
 RULE = ("collections from the structured generator (random dense/sparse, canonical stars by census realised as Pauli strings, "
         "obfuscated by contractions with dependent products / duplicates / identity injected, paths, commuting sets, disjoint unions, "
@@ -83,6 +84,6 @@ def replay(path):
         return sp
     out = impl_classify.handle(line); why = batch_oracle([line], [out])[0]
     if str(r.get("stream", "")).startswith("closed-form:"):
-        why = why or S.batch_oracle([line], [out])[0]
+        why = why or (B if "type-B" in str(r.get("stream")) else S).batch_oracle([line], [out])[0]
     print("line:", line); print("implementation:", out); print("model:", run_model([line])[0]); print("oracle:", why or "holds")
     return 1 if why else 0
